@@ -100,10 +100,14 @@ def oracle(sc, res):
     # 2. both stacks give the session up within the bound after the last frame of the first exchange
     frames = [e for e in res.trace if e[2] in ('tx',) and e[0] < tf]
     probes = [e for e in res.trace if e[2] == 'probe' and e[0] < tf]
+    # the bound of the state: 1.25 s everywhere, 3 s only where an FD originator has sent its end-of-message status and waits for
+    # the acknowledge ("at most 1.25 s, 3 s when waiting for an FD end-of-message acknowledge")
+    eoms_any = dll != 'j1939-21' and any(((e[3] >> 16) & 0xFF) == 0x4D and len(e[6]) >= 1 and (e[6][0] & 0xF) == 2 and e[1] == 0 for e in frames)
+    bound = BOUND[dll] if (dll == 'j1939-21' or eoms_any) else 1_250_000
     if frames and not sc.get('bg'):
         # the clock of the bound starts at the last frame that is not itself an abort caused by giving up
         lastf = max(e[0] for e in frames if not is_abort(e, dll)) if any(not is_abort(e, dll) for e in frames) else frames[-1][0]
-        limit = lastf + BOUND[dll] + 2 * PROBE + 2000
+        limit = lastf + bound + 2 * PROBE + 2000
         late = [p for p in probes if p[0] > limit and any(p[3])]
         if late:
             v.append(dict(kind='session-not-released-in-time', last_frame=lastf, still_open_at=late[-1][0], open=late[-1][3], faults=sc['faults']))
@@ -136,7 +140,7 @@ def oracle(sc, res):
                         # ... and in time: within the bound after the last frame of THIS transfer that reached the bus
                         pair = {a0[4] & 0xFF, a0[2] & 0xFF}
                         mine_fr = [e[0] for e in frames if e[1] in (0, 1) and not is_abort(e, dll) and {e[3] & 0xFF, (e[3] >> 8) & 0xFF} == pair]
-                        if mine_fr and mine[0][0] > max(mine_fr) + BOUND[dll] + 2 * PROBE + 2000:
+                        if mine_fr and mine[0][0] > max(mine_fr) + bound + 2 * PROBE + 2000:
                             v.append(dict(kind='timeout-abort-later-than-the-bound', side=other, last_frame=max(mine_fr), abort_at=mine[0][0], faults=sc['faults']))
         for e in aborts:
             if abort_reason(e, dll) not in (1, 2, 3):
